@@ -318,12 +318,17 @@ def r04_5(ctx: Ctx) -> None:
            "with a wrap point the result is the minimum of the way round and the linear distance",
            form=txt(mins[0]) if mins else "")
     rfunc = ctx.fn(REC, "Record.get_distance_between_locations")
+    from ..flow import fact_texts
+    rcfg = CFG(rfunc)
     wraps = [c for c in calls(rfunc) if call_name(c) == "get_distance_between_locations"]
-    ok = len(wraps) == 2 and any(kwarg(c, "wrap_point") is not None and txt(kwarg(c, "wrap_point")) == "len(self)"
-                                 and any(txt(t) == "self.is_circular()" and pol for t, pol in guards(c, stop=rfunc))
-                                 for c in wraps)
+    with_wrap = [c for c in wraps if kwarg(c, "wrap_point") is not None]
+    without = [c for c in wraps if kwarg(c, "wrap_point") is None]
+    ok = bool(with_wrap) and all(txt(kwarg(c, "wrap_point")) == "len(self)" and "self.is_circular()" in fact_texts(rcfg, c)
+                                 for c in with_wrap) and \
+        all("not self.is_circular()" in fact_texts(rcfg, c) for c in without)
     ctx.ob("R04.5", REC, rfunc, "Record.get_distance_between_locations", "wrap iff circular", ok,
-           "the record's distance helper passes its length as wrap point iff it is circular", form="")
+           "the record's distance helper passes its length as wrap point exactly on the paths where it is circular",
+           form="; ".join(f"{txt(c)[:60]} under {sorted(fact_texts(rcfg, c))}" for c in wraps))
     cfunc = ctx.fn(REC, "Record.connect_locations")
     src = [txt(v) for v in bound_from(cfunc, "wrap_point")]
     ok = src == ["len(self) if self.is_circular() and (not disable_wrapping) else None"]
